@@ -135,6 +135,12 @@ class RecListener(plumpy.ProcessListener):
                 plumpy.Bundle(proc)
             except RuntimeError:
                 self.run.rec.ev(self.channel + '-save-failed', name)
+        if self.raising == 'detaching' and name in ('finished', 'killed', 'excepted'):
+            # a one-shot observer group: whoever is told of the ending first takes all the others off the process -- they were
+            # registered when the ending was announced, so each of them is told all the same
+            for other in [self.run.listener] + list(getattr(self.run, 'listeners_more', [])):
+                if other is not self:
+                    proc.remove_process_listener(other)
         if self.raising == 'base-terminal' and name in ('finished', 'killed', 'excepted'):
             # an observer that, told of the ending, looks at a cancelled future: that raises asyncio.CancelledError, which is not an
             # Exception -- the ending it was told about stays the ending all the same
@@ -421,7 +427,7 @@ class Run:
                 proc.add_cleanup(_FailingCleanup())
             if case.get('listener', True):
                 # ('raising-terminal': broken only in its handling of the three endings)
-                raising = {'raising': True, 'raising-terminal': 'terminal', 'checkpointing': 'checkpointing', 'raising-base': 'base-terminal'}.get(case.get('listener'), False)
+                raising = {'raising': True, 'raising-terminal': 'terminal', 'checkpointing': 'checkpointing', 'raising-base': 'base-terminal', 'detaching': 'detaching'}.get(case.get('listener'), False)
                 self.listener = RecListener(self, raising=raising)
                 proc.add_process_listener(self.listener)
                 if case.get('listener') == 'twice':
